@@ -99,3 +99,20 @@ package cte
 //@ structural cte-reader-calls: only_callers (io.Reader).Read in cte:
 //@ structural cte-bigint-ops: callees cte@cte.(*Writer)|cte.(*EncoderEventReceiver)|cte.(*EncoderContext)|cte.(*arrayEncoderEngine)|cte.(*topLevelDecorator)|cte.(*Marshaler) into math/big: (*Float).IsInf (*Float).Sign (*Float).Float64 (*Float).Append (*Int).Append
 //@ structural cte-apd-ops: callees cte@cte.(*Writer)|cte.(*EncoderEventReceiver)|cte.(*EncoderContext)|cte.(*Marshaler) into github.com/cockroachdb/apd/v2: (*Decimal).Sign (*Decimal).Append
+
+// ---------------------------------------------------------------------------------------------
+// Reset point of the CTE encoder (C16): a new document starts with no indentation and a decorator
+// stack holding just the top-level decorator, whatever an abandoned document left behind.
+// (ContainerHasObjects is written by every BeginContainer before EndContainer reads it, and the
+// top-level decorator ignores it; Stream.Column is reset by the line feed that ends the version
+// line before anything reads it. Neither is part of the fresh state.)
+//@ func (*indenter).Reset
+//@   inline
+//@ func (*EncoderContext).Stack
+//@   inline
+//@ func (*EncoderContext).Begin
+//@   requires cap(_this.stack) <= 0x100000000
+//@   modifies _this.indenter.indent, _this.stack, _this.Decorator, memall(EncoderDecorator), alloc
+//@   ensures len(_this.indenter.indent) == 0 && len(_this.stack) == 1
+//@   ensures typeIs(_this.Decorator, "*TopLevelDecorator") && payload(_this.Decorator, "*TopLevelDecorator") == &topLevelDecorator
+//@   ensures _this.stack[0] == _this.Decorator
